@@ -1238,6 +1238,7 @@ func genCase(r *rand.Rand, id int, pl *pools) Case {
 	durS := []int64{1, 2, 4, 5, 10, 60}[r.Intn(6)]
 	exactOnly := false
 	c.Class = "log"
+	uw := ""
 	if gp.metric {
 		fn := pick(r, rangeFns)
 		inner := pipe
@@ -1250,7 +1251,8 @@ func genCase(r *rand.Rand, id int, pl *pools) Case {
 		}
 		if gp.unwrap {
 			fn = pick(r, unwrapFns)
-			inner += " | unwrap " + pick(r, []string{"n", "dur", "_entry", "level"})
+			uw = pick(r, []string{"n", "n", "dur", "dur", "_entry", "level"})
+			inner += " | unwrap " + uw
 			c.Class = "unwrap"
 		} else {
 			c.Class = "lra"
@@ -1258,6 +1260,14 @@ func genCase(r *rand.Rand, id int, pl *pools) Case {
 		bwInner := ""
 		if r.Intn(3) == 0 {
 			bwInner = " " + genByWithout(r)
+		} else if gp.unwrap && r.Intn(2) == 0 {
+			// group on one or two low-cardinality labels so that several unwrapped values meet in one bucket of one series
+			// (otherwise the unwrapped label itself keeps every value in its own series and min/max/first/last see one sample)
+			bwInner = " by (" + pick(r, keyPool[:5])
+			if r.Intn(2) == 0 {
+				bwInner += "," + pick(r, keyPool[:5])
+			}
+			bwInner += ")"
 		}
 		agg := r.Intn(3) == 0
 		var aggFn, bwOuter, cmpO string
@@ -1296,6 +1306,9 @@ func genCase(r *rand.Rand, id int, pl *pools) Case {
 	base := int64(1700000000) * 1e9
 	base -= base % dur
 	nb := int64(1 + r.Intn(6))
+	if gp.unwrap && r.Intn(2) == 0 {
+		nb = int64(1 + r.Intn(2)) // few buckets: several samples meet in one
+	}
 	c.From, c.To = base, base+nb*dur
 	switch r.Intn(5) {
 	case 0:
@@ -1307,6 +1320,9 @@ func genCase(r *rand.Rand, id int, pl *pools) Case {
 	}
 	// series and entries
 	nser := 1 + r.Intn(3)
+	if gp.unwrap && r.Intn(2) == 0 {
+		nser = 1
+	}
 	type ser struct {
 		labels map[string]string
 		fp     uint64
@@ -1335,6 +1351,15 @@ func genCase(r *rand.Rand, id int, pl *pools) Case {
 				msg = pick(r, pl.jsonL)
 			} else {
 				msg = pick(r, pl.logfmtL)
+			}
+		}
+		if (uw == "n" || uw == "dur") && r.Intn(10) < 7 {
+			// the unwrapped label present, with few distinct numeric values (ties, zero, negative, fraction)
+			v := pick(r, []string{"0", "1", "2", "3", "5", "2.5", "-1", "1"})
+			if gp.parserFn == "logfmt" {
+				msg = uw + "=" + v + pick(r, []string{"", " level=info", " msg=b"})
+			} else {
+				msg = "{" + jsonStr(uw) + ":" + pick(r, []string{v, jsonStr(v)}) + pick(r, []string{"", ",\"level\":\"info\"", ",\"msg\":\"b\""}) + "}"
 			}
 		}
 		if bad && r.Intn(4) == 0 {
